@@ -269,15 +269,21 @@ Proof. vm_compute. repeat split. Qed.
 Lemma maint_colon_prefix sid : has_prefix (s_service_maintenance_colon ++ sid) s_service_maintenance = true.
 Proof. apply has_prefix_spec. exists (58 :: sid). reflexivity. Qed.
 
-(* filtering by tag prefix never changes the health of an instance all of whose own
-   checks survive the filter (in Consul every check of a service carries the tags of the
-   service, so this is: an instance that carries a tag starting with the prefix) *)
+Lemma tagged_kept prefix c : tagged prefix c = true -> tag_kept prefix c = true.
+Proof. unfold tagged, tag_kept. intros ->. now rewrite !orb_true_r. Qed.
+
+(* filtering by tag prefix never changes the health of an instance whose own checks carry a
+   tag that, trimmed, starts with the prefix (in Consul every check of a service carries
+   the tags of the service, so this is: an instance that advertises a route) *)
 Theorem tagfilter_keeps_node_checks prefix checks status strict n sid :
-  (forall c, In c checks -> own n sid c -> tag_kept prefix c = true) ->
+  (forall c, In c checks -> own n sid c -> tagged prefix c = true) ->
   (healthy (checks_with_tag_prefix prefix checks) status strict n sid <->
    healthy checks status strict n sid).
 Proof.
-  intros Hown. unfold checks_with_tag_prefix.
+  intros Hown0.
+  assert (forall c, In c checks -> own n sid c -> tag_kept prefix c = true) as Hown
+    by (intros c Hc Ho; apply tagged_kept; now apply Hown0).
+  unfold checks_with_tag_prefix.
   assert (forall c, In c checks -> c_id c = s_serfHealth -> In c (filter (tag_kept prefix) checks)) as Kserf.
   { intros c Hc Hid. apply filter_In. split; [exact Hc|]. unfold tag_kept. now rewrite Hid, beq_refl. }
   assert (forall c, In c checks -> c_id c = s_node_maintenance -> In c (filter (tag_kept prefix) checks)) as Knode.
@@ -311,7 +317,7 @@ Qed.
 
 (* one round of the watcher: which checks are passed on to makeConfig *)
 Theorem watch_passing_iff prefix checks status strict svc :
-  (forall c, In c checks -> own (c_node svc) (c_sid svc) c -> tag_kept prefix c = true) ->
+  (forall c, In c checks -> own (c_node svc) (c_sid svc) c -> tagged prefix c = true) ->
   (In svc (watch_passing prefix status strict checks) <->
    In svc checks /\ is_service_check svc = true /\ healthy checks status strict (c_node svc) (c_sid svc)).
 Proof.
@@ -320,17 +326,20 @@ Proof.
   unfold checks_with_tag_prefix. rewrite filter_In. split.
   - intros [[Hc _] R]. now split.
   - intros [Hc [Hsvc Hh]].
-    split; [split; [exact Hc | apply Hown; [exact Hc | now split]] | split; [exact Hsvc | exact Hh]].
+    split; [split; [exact Hc | apply tagged_kept; apply Hown; [exact Hc | now split]] | split; [exact Hsvc | exact Hh]].
 Qed.
 
-(* finding F-C01-2: the tag filter compares the tag untrimmed, routecmd.build trims first:
-   a healthy instance advertising " urlprefix-/sp" yields no config line although
-   routecmd.build has a command for it *)
+(* finding F-C01-2, repaired in /repo by the fix: commit fdfd589: the tag filter used to
+   compare the tag untrimmed while routecmd.build trims first, so that a healthy instance
+   advertising " urlprefix-/sp" yielded no config line although routecmd.build has a command
+   for it.  The refutation is about the filter as it was ([svc_config_unrepaired]); with the
+   repaired filter the same state yields the command. *)
 Theorem untrimmed_tag_refuted :
   exists prefix status checks e,
     route_tags prefix (e_tags e) <> [] /\ e_cmds e <> [] /\
     healthy checks status false (e_node e) (e_sid e) /\ registered checks (e_node e) (e_sid e) /\
-    svc_config prefix status false checks [e] = Ok [].
+    svc_config_unrepaired prefix status false checks [e] = Ok [] /\
+    svc_config prefix status false checks [e] = Ok (join (e_cmds e) [10]).
 Proof.
   set (tags := [bs " urlprefix-/sp"]).
   exists (bs "urlprefix-"), [bs "passing"],
@@ -338,7 +347,7 @@ Proof.
     (mkEntry (bs "n1") (bs "s1") (bs "svc-a") tags [bs "route add svc-a /sp http://10.0.0.3:8003/"]).
   split; [vm_compute; discriminate|]. split; [vm_compute; discriminate|].
   split; [apply healthy_b_spec; vm_compute; reflexivity|].
-  split; [|vm_compute; reflexivity].
+  split; [|split; vm_compute; reflexivity].
   eexists. split; [left; reflexivity|]. split; [split; reflexivity | vm_compute; reflexivity].
 Qed.
 
@@ -650,14 +659,14 @@ Proof.
 Qed.
 
 (* ... and instance-level, for tag-consistent states: a catalog entry whose instance has a
-   service check under the entry's name, all of whose own checks carry the prefix, and
-   which is healthy, has all its commands in the config *)
+   service check under the entry's name, all of whose own checks carry a tag that, trimmed,
+   starts with the prefix, and which is healthy, has all its commands in the config *)
 Theorem healthy_tagged_is_routed prefix status strict checks catalog ls e svc x :
   config_lines prefix catalog (watch_passing prefix status strict checks) = Ok ls ->
   In e catalog -> e_sname e <> [] ->
   In svc checks -> is_service_check svc = true -> c_sname svc = e_sname e ->
   c_node svc = e_node e -> c_sid svc = e_sid e ->
-  (forall c, In c checks -> own (e_node e) (e_sid e) c -> tag_kept prefix c = true) ->
+  (forall c, In c checks -> own (e_node e) (e_sid e) c -> tagged prefix c = true) ->
   healthy checks status strict (e_node e) (e_sid e) ->
   In x (e_cmds e) -> In x (sort_desc ls).
 Proof.
